@@ -411,7 +411,7 @@ def removal_path_rule(C, P):
     ok = bool(ri)
     why = ''
     for pos, t in ri:
-        pa = [a for a in t['args'] if is_local_op(a) and 'Cow<' in (rs.local_ty(a['l']) or '')]
+        pa = [a for a in t['args'] if is_local_op(a) and re.search(r'Cow<|\bstr\b|String', rs.local_ty(a['l']) or '')]
         if not pa:
             ok = False
             continue
